@@ -52,6 +52,8 @@ def classify(replay):
     tdefs = set(re.findall(r'\(Typedef "([A-Za-z_]\w*)"', d))
     if objs & types & tdefs:
         return "F-late-registration-roundtrip"
+    if re.search(r"_Atomic\s*\(", t) and re.search(r"\b(const|volatile|restrict)\b|_Atomic\b(?!\s*\()", t):
+        return "F-atomic-spec-roundtrip"
     return None
 
 
